@@ -91,6 +91,13 @@ def cases(tier, seed):
         if sh["params"] or sh.get("body"):
             # the same shape written with components/{parameters,requestBodies,responses} $refs
             out.append({"shapes": [sh], "strategy": "operationId", "fmt": "json", "refs": True})
+    # status-code range keys (2XX / 4XX / 5XX) next to and instead of numeric ones; the strategy selected by its string spelling through the API
+    for s in (REP_SETS[1:5] if tier == "quick" else REP_SETS):
+        for st in STRATEGIES:
+            out.append({"set": s, "tags": "one", "ids": "snake", "strategy": st, "fmt": "json", "ranges": "next-to"})
+            out.append({"set": s, "tags": "one", "ids": "snake", "strategy": st, "fmt": "yaml", "ranges": "only"})
+            for ip in ("snake", "fastapi", "absent"):
+                out.append({"set": s, "tags": "one", "ids": ip, "strategy": st, "fmt": "json", "strategy_as_str": True})
     # a path item that carries `$ref` AND inline operations (both legal); five operations with one operationId sharing a tag client
     out.append({"special": "pathitem-ref", "strategy": "operationId", "fmt": "json"})
     for n in (3, 4, 5, 6):
@@ -164,6 +171,11 @@ def build(case):
         resp = {"200": "json-model"} if method != "delete" else {"204": "none"}
         if case.get("with_default"):
             resp["default"] = "json-other"
+        if case.get("ranges") == "next-to":
+            resp["4XX"] = "json-other"
+            resp["5XX"] = "none"
+        elif case.get("ranges") == "only":
+            resp = {"2XX": "json-model" if method != "delete" else "none", "4XX": "json-other"}
         c = ops.op(method, path, params, body, resp, tags_for(case["tags"], i), id_for(case["ids"], i, path, method))
         cs.append(c)
     doc, meta = ops.build_doc(cs, auto_tag=False, auto_id=False, prefix=False)
@@ -183,7 +195,7 @@ def run_case(case):
     elif "routes" in case:
         label = f"routes={case['routes']}|{case['strategy']}"
     else:
-        label = f"ops={[COMBOS[i][1].upper() + ' ' + COMBOS[i][0] for i in case['set']]}|tags={case['tags']}|ids={case['ids']}|{case['strategy']}|{case['fmt']}" + ("|+default" if case.get("with_default") else "")
+        label = f"ops={[COMBOS[i][1].upper() + ' ' + COMBOS[i][0] for i in case['set']]}|tags={case['tags']}|ids={case['ids']}|{case['strategy']}|{case['fmt']}" + ("|+default" if case.get("with_default") else "") + (f"|ranges={case['ranges']}" if case.get("ranges") else "") + ("|strategy-as-str" if case.get("strategy_as_str") else "")
     case = dict({"tags": "-", "ids": "-", "set": []}, **case)
     found = []
     seen = set()
@@ -198,7 +210,7 @@ def run_case(case):
     fmt = "yaml" if case["fmt"] == "yaml-intkeys" else case["fmt"]
     with sandbox.scratch() as d:
         root = os.path.join(d, "proj")
-        files, err = sandbox.generate(gdoc, root, naming=case["strategy"], fmt=fmt)
+        files, err = sandbox.generate(gdoc, root, naming=case["strategy"], fmt=fmt, naming_as_str=bool(case.get("strategy_as_str")))
         if err is not None:
             return {"findings": [], "outcome": "rejected:" + type(err).__name__, "nontrivial": label}
         res = sandbox.zygote_job({"roots": [root], "allow": ["cli"], "driver": "reach", "args": {"package": "cli", "core": "cli.core"}})
